@@ -8,7 +8,7 @@
    content headers, every payload encoding) to the abstract S3 map; those are evaluated on every run by the Spec directly on
    the real gateway's answers (read-back after every acknowledged upload, in four storage configurations). *)
 From Coq Require Import String Ascii List Arith Bool.
-From VGW Require Import Base.GoStr Model.Walk Model.Paths Model.Posix Proofs.PosixProof.
+From VGW Require Import Base.GoStr Model.Walk Model.Paths Model.Posix Proofs.PosixProof Proofs.PosixFrame.
 Import ListNotations.
 Open Scope string_scope.
 
@@ -29,6 +29,16 @@ Theorem C01_directory_object_read_back : forall root b key blob len ctype meta r
   snd (step root' (GetObject b key)) = O_get None emptyMD5 "application/x-directory" (sort_attrs meta).
 Proof. exact put_dir_then_get. Qed.
 Print Assumptions C01_directory_object_read_back.
+
+(* the frame of an upload: an acknowledged PutObject of a file key changes what GetObject answers for THAT key only; every other
+   file key, in every bucket, reads exactly as before (for every tree: keys that are prefixes or extensions of the uploaded key, keys in
+   the directories the upload creates on its way, keys of other buckets) *)
+Theorem C01_put_changes_only_its_key : forall root b key blob len ctype meta root' b' key',
+  ends_slash key = false -> step root (PutObject b key blob len ctype meta) = (root', O_ok) ->
+  ends_slash key' = false -> b' :: segs key' <> b :: segs key ->
+  snd (step root' (GetObject b' key')) = snd (step root (GetObject b' key')).
+Proof. exact put_frame. Qed.
+Print Assumptions C01_put_changes_only_its_key.
 
 (* reads do not change the tree: a GET between an upload and a later GET changes nothing *)
 Theorem C01_get_is_pure : forall root b key, fst (step root (GetObject b key)) = root.
@@ -52,4 +62,11 @@ Example C01_example_directory_object :
   run root0 [CreateBucket "bk1"; PutObject "bk1" "d/e/" 0 0 "" [("old", "1"); ("both", "x")]; PutObject "bk1" "d/e/" 0 0 "" [("new", "2"); ("both", "y")];
              GetObject "bk1" "d/e/"; PutObject "bk1" "d/e/" 0 0 "" []; GetObject "bk1" "d/e/"] =
   [O_ok; O_ok; O_ok; O_get None "EMPTY" "application/x-directory" [("both", "y"); ("new", "2")]; O_ok; O_get None "EMPTY" "application/x-directory" []].
+Proof. vm_compute. reflexivity. Qed.
+
+(* non-vacuity of the frame theorem: uploads below, beside and into new directories leave the other keys as they were *)
+Example C01_example_frame :
+  run root0 [CreateBucket "bk1"; CreateBucket "bk2"; PutObject "bk1" "a/b" 1 3 "t/1" [("m", "1")]; PutObject "bk2" "a/b" 2 3 "" [];
+             PutObject "bk1" "a/c/d" 3 1 "" []; PutObject "bk1" "a/bb" 4 1 "" []; GetObject "bk1" "a/b"; GetObject "bk2" "a/b"; GetObject "bk1" "a/c"; GetObject "bk1" "a/b/x"] =
+  [O_ok; O_ok; O_ok; O_ok; O_ok; O_ok; O_get (Some 1) "E1" "t/1" [("m", "1")]; O_get (Some 2) "E2" "binary/octet-stream" []; O_err NoSuchKey; O_err NoSuchKey].
 Proof. vm_compute. reflexivity. Qed.
